@@ -208,6 +208,9 @@ Definition insert_into (ttfs : Z) (tsc : schema) (tstore : list row) (tnames : l
                      else
                        let ep := match t_get epoch_name p with Some c => c | None => [] end in
                        let cols := map (fun n => match t_get n p with Some c => c | None => [] end) others in
+                       (* WriteCSM starts with cs.GetTime(): the Epoch column must be a []int64 ("unexpected data
+                          type for Epoch column"); the model sees float cells, not the width of integer cells *)
+                       if negb (forallb (fun c => match c with VI _ => true | _ => false end) ep) then Rejected else
                        Ok (fold_left (fun st ev => lww (trunc_tf ttfs (fst ev)) (snd ev) st)
                                      (tbl_rows (List.length ep) ep cols) tstore)
                  | [] => Rejected
